@@ -44,7 +44,7 @@ LabelMenu(L) ==
 PosMenu(n) ==
   {IxAll}
   \cup {IxSc(v) : v \in (-n-1)..n}
-  \cup {IxLi(<<>>), IxLi(<<0>>), IxLi([i \in 1..n |-> n - i]), IxLi(<<0, 0>>), IxLi(<<-1, 0>>), IxLi(<<0, n>>), IxLi(<<-n-1>>)}
+  \cup {IxLi(<<>>), IxLi(<<0>>), IxLi([i \in 1..n |-> n - i]), IxLi(<<0, 0>>), IxLi(<<-1, 0>>), IxLi(<<0, n>>), IxLi(<<-n-1>>), IxLi(IF n >= 2 THEN <<-2, -1>> ELSE <<-1>>), IxLi([i \in 1..n |-> i - 1])}
   \cup {IxMk(m) : m \in Masks(n)}
   \cup {IxSl(<<1>>, <<>>, <<>>), IxSl(<<>>, <<-1>>, <<>>), IxSl(<<>>, <<>>, <<-1>>), IxSl(<<0>>, <<n+2>>, <<2>>)}
 
